@@ -216,6 +216,9 @@ func Run(tier string) int {
 	if only("chunks") {
 		rn.chunkSpace()
 	}
+	if only("wide") {
+		rn.wideSpace()
+	}
 	return r.Finish()
 }
 
